@@ -5,15 +5,56 @@ from checks.c09 import vlib_corpus
 from checks.c11 import FIXTURES
 from specgen import ops_spec
 
-PAYLOADS = ['q"uote', 'back\\slash', 'end */ comment', 'br]acket', '#[derive(Evil)]', 'fmt {} {0} {x}', '"# raw', 'line1\nline2', 'nul\x00byte', 'bidi‮evil', 'x' * 700, 'lit\\nnewline', '// slash', '/* open', 'tick`tick', '"); panic!("x', "single'quote", '{{double}}', '$crate::x', "\\u{41}", 'tab\there', 'cr\r\nlf', 'x\npub mod injected {', '1.0\n}']
+PAYLOADS = ['q"uote', 'back\\slash', 'end */ comment', 'br]acket', '#[derive(Evil)]', 'fmt {} {0} {x}', '"# raw', 'line1\nline2', 'nul\x00byte', 'bidi‮evil', 'x' * 700, 'lit\\nnewline', '// slash', '/* open', 'tick`tick', '"); panic!("x', "single'quote", '{{double}}', '$crate::x', "\\u{41}", 'tab\there', 'cr\r\nlf', 'lone\rcr', 'endcr\r', 'x\npub mod injected {', '1.0\n}']
 # line breaks end a `//` comment and a one-line attribute: always part of the quick sample
-ALWAYS = ['line1\nline2', 'cr\r\nlf', 'x\npub mod injected {']
+ALWAYS = ['line1\nline2', 'cr\r\nlf', 'x\npub mod injected {', 'lone\rcr']
 
 
 # values of NON-string members written as strings: the text is the WHOLE value and starts like a number
 NUM_PAYLOADS = ['1; c19_marker(); 0', '1 + c19_marker()', '2 as u8', '3)] struct X; #[x(', '4 /* open', '5 // slash', '6"quote', '7i64, evil = 1', '-8; x()', '9.5; y()', '0x1f + z()']
 # patterns that are valid regular expressions as they stand (inserted unescaped): raw-string / string terminators next to backslashes
 PAT_PAYLOADS = ['\\d"# + c19_marker() + r#"\\d', '\\w"#b', 'a"#b', '\\s"', 'x"##y\\d', '\\d"; c19_marker(); "', 'r#"\\d', '\\\\"#', '\\d\\"#']
+
+
+# ---- lexical carriers (K tie `lex.*`): the generator's escaper / doc-line builders and what proc_macro2, prettyplease
+# and the Rust lexer (syn) make of them, against Model/Lexical.lean ---------------------------------------------------
+LEX_ALPHA = ['a', 'Z', '7', '0', ' ', '"', "'", '\\', '\n', '\r', '\t', '\x00', '\x7f', '\x1b', '{', '}', '/', '*', '#', '!', '`', '$',
+             'é', '\u0301', '\u200e', '\u202e', '\ufeff', '\uffff', '\U0010ffff', '中', '😀', '\\n', '\r\n', '*/', '/*', '//', '"#', ']']
+
+
+def lex_texts(ctx):
+    r = ctx.rng
+    out = list(PAYLOADS) + list(PAT_PAYLOADS) + list(NUM_PAYLOADS)
+    out += ['', ' ', '  trailing  ', 'a\rb', 'a\r', '\rb', 'a\r\rb', 'a\r\nb\r', 'x\r\n', '\n', '\n\n', 'a\n', 'a\n\nb', '/slash first', '*star', '/** x */', '\x000', '\x007\x008', "it's", '\\', '\\\\n', 'a\\nb\\n', '\\u{41}', '\\x41', '\\\n cont']
+    for a in LEX_ALPHA:
+        out.append(a); out.append('x' + a + 'y'); out.append(a + a)
+    n = 1500 if ctx.quick else 30000
+    for _ in range(n):
+        k = r.randint(1, 7)
+        out.append(''.join(r.choice(LEX_ALPHA) if r.random() < 0.7 else r.choice(['word', 'two words', '1.5', 'pub fn x() {}', '#[doc(hidden)]']) for _ in range(k)))
+    seen, uniq = set(), []
+    for t in out:
+        if t not in seen:
+            seen.add(t); uniq.append(t)
+    return uniq
+
+
+def lex_cases(ctx):
+    r = ctx.rng
+    texts = lex_texts(ctx)
+    cases = []
+    for t in texts:
+        cases.append({"op": "lex.lit", "in": {"s": t}})
+        cases.append({"op": "lex.escape", "in": {"s": t}})
+        cases.append({"op": "lex.doc", "in": {"s": t}})
+    for _ in range(400 if ctx.quick else 6000):
+        d = {"method": r.choice(["GET", "POST", "DELETE"]), "path": r.choice(["/pets", "/pets/{id}", "/a b/{x}.json", "/"])}
+        if r.random() < 0.8:
+            d["summary"] = r.choice(texts)
+        if r.random() < 0.8:
+            d["description"] = r.choice(texts)
+        cases.append({"op": "lex.opdoc", "in": d})
+    return cases
 
 
 def base_spec_text():
@@ -157,8 +198,15 @@ def run(ctx):
         if not ctx.quick:
             ctx.leanchecker("Oas3Model.Props.C19")
     r = ctx.rng
-    ctx.prepare = prepare
     if driver_ok and ctx.build_harness(["k_gen"]):
+        # carriers first: every text through the real escaper / doc builders / proc_macro2 / prettyplease / syn vs the model
+        ctx.prepare = None
+        lc = [c for c in vlib_corpus(ctx) if c["op"].startswith("lex.")] + lex_cases(ctx)
+        for i in range(0, len(lc), 2000):
+            ctx.classify(ctx.evaluate(lc[i:i + 2000]), tie="K")
+            if len(ctx.violations) >= 3:
+                break
+        ctx.prepare = prepare
         cases = [c for c in vlib_corpus(ctx) if c["op"] == "inject.pair"]      # witnesses of the listed findings first
         for pi in range(len(POSITIONS)):
             kind = "text" if pi < N_TEXT else "num"
